@@ -1645,7 +1645,7 @@ func (x *Exec) mapLen(st *State, mt types.Type, m string) string {
 	return ite(eq(m, "0"), "0", l)
 }
 
-const maxAlloc = maxObj // make() larger than any existing Go object (2^40 elements) counts as an absurd allocation
+const maxAlloc = "2199023255552" // 2^41 (the sum of two existing objects); make() larger than any existing Go object (2^40 elements) counts as an absurd allocation
 
 func (x *Exec) makeSlice(st *State, ms *ssa.MakeSlice) Val {
 	c := x.c
